@@ -35,6 +35,7 @@ inline std::string ZKey(Source& s, Lane l, const ZooGenCfg& g, size_t i)
 inline void GenZoo(Source& s, Lane l, Zoo& z, const ZooGenCfg& g)
 {
 	uint32_t n;
+	z.skipIntKeyMaps = g.archive == A_XML;
 	n = ZLen(s, l, g); for (uint32_t i = 0; i < n; ++i) z.vec.push_back(ZInt(s, l));
 	n = ZLen(s, l, g); for (uint32_t i = 0; i < n; ++i) z.vbool.push_back(s.chance(l, 1, 2));
 	n = ZLen(s, l, g); for (uint32_t i = 0; i < n; ++i) z.deq.push_back(ZInt(s, l));
@@ -201,10 +202,10 @@ inline CallResult LoadZooWith(ArchiveOps& ops, Zoo& z, const std::string& bytes,
 		if (faults.eofAt < bytes.size())
 		{
 			const std::string prefix = bytes.substr(0, faults.eofAt);
-			r = Guarded([&] { ops.LoadZoo(z, o, IoIn{ &prefix, nullptr }); });
+			r = Guarded([&] { FailWindow fw; ops.LoadZoo(z, o, IoIn{ &prefix, nullptr }); });
 			if (info) info->faultFired = true;
 		}
-		else r = Guarded([&] { ops.LoadZoo(z, o, IoIn{ &bytes, nullptr }); });
+		else r = Guarded([&] { FailWindow fw; ops.LoadZoo(z, o, IoIn{ &bytes, nullptr }); });
 	}
 	else
 	{
@@ -212,7 +213,7 @@ inline CallResult LoadZooWith(ArchiveOps& ops, Zoo& z, const std::string& bytes,
 		sb.SetSeekBeyondFails(c.seekBeyondFails);
 		std::istream is(&sb);
 		if (throwMode) is.exceptions(std::ios::badbit);
-		r = Guarded([&] { ops.LoadZoo(z, o, IoIn{ nullptr, &is }); });
+		r = Guarded([&] { FailWindow fw; ops.LoadZoo(z, o, IoIn{ nullptr, &is }); });
 		if (info) { info->faultFired = sb.FaultFired(); info->reachedEof = sb.ReachedEof(); info->streamBad = is.bad(); info->streamFail = is.fail(); }
 	}
 	ResetKnobs();
@@ -223,11 +224,11 @@ inline CallResult SaveZooWith(ArchiveOps& ops, Zoo& z, std::string& outBytes, co
 	sim::OutFaults faults = {}, bool* faultFired = nullptr, bool* streamFailed = nullptr)
 {
 	outBytes.clear();
-	if (!c.stream) return Guarded([&] { ops.SaveZoo(z, o, IoOut{ &outBytes, nullptr }); });
+	if (!c.stream) return Guarded([&] { FailWindow fw; ops.SaveZoo(z, o, IoOut{ &outBytes, nullptr }); });
 	sim::SimOStreamBuf sb(outBytes, c.bufSize, faults);
 	std::ostream os(&sb);
 	if (faults.throwing) os.exceptions(std::ios::badbit);
-	CallResult r = Guarded([&] { ops.SaveZoo(z, o, IoOut{ nullptr, &os }); });
+	CallResult r = Guarded([&] { FailWindow fw; ops.SaveZoo(z, o, IoOut{ nullptr, &os }); });
 	try { os.flush(); } catch (...) {}
 	if (faultFired) *faultFired = sb.FaultFired();
 	if (streamFailed) *streamFailed = os.fail();
